@@ -204,6 +204,7 @@ def run(idx, rep, tier):
     n_sites = slice_role_obligations(idx, rep, "slice-resolution", readers)
     if not n_sites:
         rep.note(f"slice-resolution: {len(readers)} functions read `.slices`; none materialises them with arange(N)[s] on this tree (the self-test keeps a firing example)")
+    annotation_transfer(idx, rep)
     rep.floor("annot-rule", 16)
     rep.floor("annot-sound", 5000)
     rep.floor("annot-merge", 1)
@@ -356,3 +357,83 @@ def check_ctor_annotation(idx, rep, fi, call, name):
                        detail="" if ok else "norm", locs=[loc])
             return
     rep.undecided("output-annotation", construct, "constructor-declared annotation not derivable from the code shape", locs=[loc])
+
+
+# ------------------------------------------------------------------------------------------------
+LEGIT_ANNOTATION_STORES = {("LinearOperator", "__init__"), ("WrapMeta", "__call__")}  # computed from the rules / declared by the user
+
+
+def annotation_transfer(idx, rep):
+    """every other assignment to `<op>.annotations` copies knowledge from one operator to another; what is copied must be allowed
+    for the operator it is attached to.  The target's meaning relative to the source comes from TERM (Dense(A.A.T) = T(A), ...),
+    the copied set from the annotation interpreter, the verdict from the same oracle as the inference rules."""
+    from sa.term import C, T, TermEval, norm, sym
+    core = frozenset(idx.core_modules())
+    n = 0
+    for g in idx.funcs.values():
+        if g.module.name not in core:
+            continue
+        owner = (g.cls.name if g.cls is not None else (g.enc_cls.name if getattr(g, "enc_cls", None) is not None else None), g.name)
+        if owner in LEGIT_ANNOTATION_STORES:
+            continue
+        for st in df.body_nodes(g.node, into_nested=False):
+            if not (isinstance(st, ast.Assign) and len(st.targets) == 1 and isinstance(st.targets[0], ast.Attribute) and st.targets[0].attr == "annotations"
+                    and isinstance(st.targets[0].value, ast.Name)):
+                continue
+            tgt = st.targets[0].value.id
+            n += 1
+            loc = [idx.loc(g.module, st)]
+            construct = f"{role(g)}:{tgt}.annotations"
+            # contexts: g itself when it is a rule, else the rules that call g
+            contexts = []
+            if getattr(g, "rule", None) is not None:
+                contexts.append((g, None))
+            else:
+                for caller in idx.funcs.values():
+                    if getattr(caller, "rule", None) is None:
+                        continue
+                    for c in df.calls(caller.node):
+                        r = idx.resolve_expr(caller.module, c.func, caller)
+                        if r is not None and r.kind == "funcs" and r.val[-1] is g:
+                            contexts.append((caller, c))
+            if not contexts:
+                rep.undecided("annotation-transfer", construct, "annotations are assigned outside any dispatch rule context", locs=loc)
+                continue
+            for caller, call in contexts:
+                a = caller.rule.params[0][0]
+                te = TermEval(idx)
+                bound = df.bind_call(call, g.params) if call is not None else {}
+                tgt_expr = bound.get(tgt) if call is not None else df.resolve_value(caller.node, ast.Name(id=tgt, ctx=ast.Load()))
+                t = norm(te.eval_in(caller, tgt_expr)) if tgt_expr is not None else ("opaque", "?")
+                # the operand as a whole, or its dense payload (A = A.A for Dense / Triangular)
+                whole = [sym(a), sym(f"{a}.A")]
+                comb = "Transpose" if t in [norm(T(w)) for w in whole] else ("Adjoint" if t in [norm(C(T(w))) for w in whole] else ("Same" if t in whole else None))
+                cconstruct = f"{construct}@{caller.rule.role}"
+                if comb is None:
+                    rep.undecided("annotation-transfer", cconstruct, f"the object that receives the annotations ({ast.unparse(tgt_expr) if tgt_expr is not None else tgt}) is not a recognised function of {a}", locs=loc)
+                    continue
+                src_param = next((p for p, e in bound.items() if isinstance(e, ast.Name) and e.id == a), a) if call is not None else a
+                kind = sorted(caller.rule.types[0])[0]
+                bad = None
+                for raw in raw_subsets():
+                    src = OpD(kind if kind != "LinearOperator" else "Dense", raw, label="B")
+                    out = OpD("Dense", (), label="out")
+                    env = {src_param: src, tgt: out}
+                    try:
+                        got = Interp(idx, g.module).ev(st.value, env, g)
+                    except Undecidable as e:
+                        bad = ("undecided", str(e))
+                        break
+                    ok = allowed(OpD(comb, (), [src])) if comb != "Same" else closure(raw)
+                    extra = sorted(closure(frozenset(got)) - ok)
+                    if extra:
+                        bad = ("refuted", f"claims {', '.join(extra)} for {comb}[{src!r}]: " + "; ".join(WHY_NOT.get((comb, x), "") for x in extra))
+                        break
+                if bad is None:
+                    rep.proved("annotation-transfer", cconstruct, f"`{ast.unparse(st)}` attaches only annotations that hold for {comb}({a})", locs=loc)
+                elif bad[0] == "undecided":
+                    rep.undecided("annotation-transfer", cconstruct, f"`{ast.unparse(st)}`: {bad[1]}", locs=loc)
+                else:
+                    rep.refuted("annotation-transfer", cconstruct, f"`{ast.unparse(st)}` {bad[1]}", detail="copied", locs=loc)
+    if not n:
+        rep.note("annotation-transfer: no assignment to `.annotations` outside the base constructor and the declaration wrapper on this tree")
